@@ -10,6 +10,7 @@ import Reamber.Lemmas.TimingChain
 import Reamber.Lemmas.TimingOrder
 import Reamber.Lemmas.TimingMono
 import Reamber.Lemmas.TimingRoundTrip
+import Reamber.Lemmas.TimingRoundTripErr
 import Reamber.Spec.Timing
 import Reamber.Generated.Consts
 
@@ -213,6 +214,46 @@ theorem snaps_offsets_exact (g : Array Rat) (hg : GridOK g) (t0 : Rat) (cs : Lis
     calc ts.map (timeAt t0 (c :: rest) ∘ F) = ts.map id :=
           List.map_congr_left (fun t ht => (hF t ht).2.2)
       _ = ts := List.map_id ts
+
+/-- **Round trip, general part.**  Under the hypotheses of `offsets_correct`, for `Snapper()`'s grid (`grid N`,
+N ≥ 1; the code uses N = 96): EVERY list of times at or after the first change (any order, duplicates, on or off
+the grid) goes through `snaps` and back through `offsets` to times within `1/(2N)` beat — 1/192 beat — of the
+originals, measured with the beat length of the tempo in force at each time; results stay in query order. -/
+theorem snaps_offsets_err (N : Nat) (hN : 0 < N) (t0 : Rat) (cs : List BcSnap)
+    (hwf : wfChanges cs = true) (hs : sortedSnaps cs = true) (h0 : firstAtZero cs = true)
+    (hgc : gridCompatible (grid N) cs = true) (hm : metronomeOk cs = true)
+    (σ : List Nat) (ts : List Rat) (hσ : SortsAscR σ ts) (hts : ∀ t ∈ ts, t0 ≤ t) :
+    ∃ (sn : List Snap) (B : Rat → Rat), snapsWith (grid N).toArray σ (tmOf t0 cs) ts = .ok sn ∧
+      (∀ σ', SortsAsc σ' sn → offsetsWith (grid N).toArray σ' (tmOf t0 cs) sn = .ok (ts.map B)) ∧
+      ∀ t ∈ ts, rabs (B t - t) ≤ 1 / (2 * (N : Rat)) * activeBeatLen t0 cs t := by
+  have hg := gridOK_grid hN
+  have hb := bcsOfBco_rederive hg t0 cs hwf hs h0 hgc hm
+  cases cs with
+  | nil => simp [firstAtZero] at h0
+  | cons c rest =>
+    let g := (grid N).toArray
+    let F : Rat → Snap := fun t => ((snapAtAux g t0 c rest t).toOption).getD default
+    have hF : ∀ t ∈ ts, lookupSnap g ((c :: rest).zip (tmOf t0 (c :: rest))).reverse t = .ok (F t) ∧
+        queryOk (c :: rest) (F t) = true ∧
+        rabs (timeAt t0 (c :: rest) (F t) - t) ≤ 1 / (2 * (N : Rat)) * activeBeatLen t0 (c :: rest) t := by
+      intro t ht
+      obtain ⟨S, hS, hle, hb0, hback⟩ :=
+        timeAtAux_snapAtAux_err hg (snapOn_grid_err hN) t0 c rest t hwf hs hgc hm (hts t ht)
+      have hFt : F t = S := by simp [F, g, hS, Except.toOption]
+      refine ⟨?_, ?_, ?_⟩
+      · simp only [tmOf, List.zip_cons_cons]
+        rw [lookupSnap_eq_snapAtAux g t0 c rest t hwf hs (hts t ht), hS, hFt]
+      · rw [hFt]; simp [queryOk, hle, hb0]
+      · rw [hFt]; exact hback
+    refine ⟨ts.map F, fun t => timeAt t0 (c :: rest) (F t),
+      snapsWith_order g σ _ ts _ _ F hb hσ (fun t ht => (hF t ht).1), ?_, fun t ht => (hF t ht).2.2⟩
+    intro σ' hσ'
+    have := offsetsWith_order g σ' (tmOf t0 (c :: rest)) (ts.map F) _ _ (timeAt t0 (c :: rest)) hb hσ'
+      (fun q hq => by
+        obtain ⟨t, ht, rfl⟩ := List.mem_map.mp hq
+        exact lookupOffset_eq_timeAt t0 (c :: rest) (F t) hwf hs (hF t ht).2.1)
+    rw [this, List.map_map]
+    rfl
 
 /-! non-vacuity: concrete instances of the hypotheses -/
 
